@@ -73,15 +73,15 @@ pub fn check_case(c: &Case, rep: &mut Report, lim: &Limits) {
     }
 }
 
-struct Scope {
-    cases: Vec<Case>,
+pub struct Scope {
+    pub cases: Vec<Case>,
 }
 
 fn enc(env: &Env, tys: &[Ty], vals: &[Val]) -> Option<Vec<u8>> {
     wire::encode(env, tys, vals, true).ok()
 }
 
-fn build_scope(tier: Tier) -> (Scope, Vec<String>) {
+pub fn build_scope(tier: Tier) -> (Scope, Vec<String>) {
     let mut cases: Vec<Case> = vec![];
     let mut notes = vec![];
     let dom = ValDomain::tiny();
